@@ -11,6 +11,7 @@
    the tree, kept as witnesses in corpus/C16). *)
 From Verif Require Import Lib.Base Model.C16_Paths Model.C16_Sessions Proofs.C16 Proofs.C16_Bytes Proofs.C16_Config Proofs.C16_Duties Proofs.C16_Sessions.
 From Verif Require Import Model.C16_Bids Proofs.C16_Bids.
+From Verif Require Import Model.C16_Aggsel Proofs.C16_Aggsel.
 
 (* =========================================================================================== *)
 (* Path 1 — proposeBlock: from the proposal response to the unblinding providers.               *)
@@ -583,4 +584,44 @@ Example C16_bids_example :
   let a := [relay 0 (Some (KInvalid 0)) 90 (SigBy 1); relay 1 (Some (KValid 2)) 40 (SigBy 2); relay 2 (Some (KValid 3)) 50 (SigBy 9)] in
   let won := {| ar_all := [0; 1; 2]; ar_winners := [1]; ar_score := 40; ar_participants := [1] |} in
   bid_session_now [a; a] = [Ok won; Ok won] /\ bid_session false [] [a; a] = [Ok won; Panic].
+Proof. vm_compute. split; reflexivity. Qed.
+
+
+(* =========================================================================================== *)
+(* Path 9 — aggregator selection (AggregatorsAndSignatures) over the duties' committee lengths. *)
+
+(* Whatever committee lengths the beacon node reports in its attester duties (0, 1, anything below
+   TARGET_AGGREGATORS_PER_COMMITTEE, 2^64-1), whatever the hashed slot signatures are and whether
+   or not the signer answers, the selection does not panic.  TARGET_AGGREGATORS_PER_COMMITTEE <> 0
+   is the domain: it is a constant of the chain's specification, read once at start-up. *)
+Theorem C16_aggsel_no_panic : forall target sign_ok rows, target <> 0%N ->
+  is_panic (aggsel_now target sign_ok rows) = false.
+Proof. exact aggsel_no_panic. Qed.
+Print Assumptions C16_aggsel_no_panic.
+
+(* What happens instead: a failing signer is an error; otherwise every validator gets the consensus
+   specification's verdict, hash mod max(1, length / TARGET) = 0 -- a committee shorter than the
+   target makes every one of its validators an aggregator. *)
+Theorem C16_aggsel_falls_back : forall target sign_ok rows, target <> 0%N ->
+  aggsel_now target sign_ok rows = if sign_ok then Ok (map (spec_is_aggregator target) rows) else Err tt.
+Proof. exact aggsel_spec. Qed.
+Print Assumptions C16_aggsel_falls_back.
+
+(* The guard that matters: "modulo must be at least 1".  The same code without it panics (integer
+   divide by zero) exactly when the signer answers and some committee is shorter than the target;
+   and taking the maximum of 1 and the committee length BEFORE dividing is no guard at all. *)
+Theorem C16_aggsel_guard_necessary : forall target rows, target <> 0%N ->
+  (aggsel false target true rows = Panic <-> exists row, In row rows /\ (fst row < target)%N).
+Proof. intros target rows Ht. unfold aggsel. apply agg_select_unguarded. exact Ht. Qed.
+Print Assumptions C16_aggsel_guard_necessary.
+
+Theorem C16_aggsel_misplaced_max_is_no_guard : forall target size,
+  (size < target)%N -> (1 < target)%N -> (N.max 1 size / target = 0)%N.
+Proof. exact misplaced_max_is_zero. Qed.
+Print Assumptions C16_aggsel_misplaced_max_is_no_guard.
+
+Example C16_aggsel_example :
+  (* target 16: a committee of 15 (every validator aggregates), of 128 (hash mod 8), of 2^64-1 *)
+  aggsel_now 16 true [(15, 7); (128, 16); (128, 7); (18446744073709551615, 0)]%N = Ok [true; true; false; true]
+  /\ aggsel false 16 true [(128, 16); (15, 7)]%N = Panic.
 Proof. vm_compute. split; reflexivity. Qed.
